@@ -34,3 +34,22 @@ claimed["C18"] = (
     "clientSocket are executed concretely through the same executor (Off(f) removes f and only f; Once fires once).",
     "Outside the claim: distinct closures sharing one code pointer (reflect cannot tell them apart - the repo's own notion of identity); the concurrent at-most-once guarantee unless C18_once_race is listed in the evidence; lists longer than the bounds.",
     "5 (C18)")
+
+claimed["C04"] = (
+    "Bounded symbolic verification of the in-memory adapter: from EVERY membership matrix of 2x2 (quick) / 3x3 (thorough) sockets x rooms built through the real AddAll, and every target set T and "
+    "exclusion set E (plus the sender's own-id room, as a socket's broadcast operator adds), the real Broadcast (apply/computeExceptSids, mapset library code executed from SSA) delivers to exactly "
+    "the sockets the 5-line reference selects, once each, never to the sender; one membership operation (join, leave, leave-all, SocketsJoin, SocketsLeave, DisconnectSockets with sockets calling back "
+    "into the adapter) from every such state yields exactly the specified new membership and preserves the representation invariant (rooms/sids mutually inverse, no empty room kept) - one inductive "
+    "step covers histories of any length over that universe. To/Except immutability is checked concretely.",
+    "Outside the claim: membership changes concurrent with a broadcast (interval semantics) unless C04_concurrent is listed in the evidence; multi-node adapters; universes larger than 3x3; end-to-end delivery. "
+    "Map iteration follows insertion order in the executor (Go leaves it unspecified).",
+    "5 (C04)")
+
+claimed["C08"] = (
+    "Bounded symbolic verification of the packet log / cleaner / RestoreSession kernel against a ghost log under a VIRTUAL CLOCK: histories of 1..2 (quick) / 1..3 (thorough) broadcasts of four addressing kinds, "
+    "disconnect point d, clean-up passes after the disconnect (0..1) and before the restore (0..2) executed by running the real cleaner goroutine body (its time.Sleep is gated), and the time elapsed between "
+    "all steps as SYMBOLIC durations (0..4 units each, decided by the solver, not enumerated). Asserts: recovered => exactly the addressed packets after the offset, in order, none twice (no gap); session older "
+    "than the window => not recovered; session and log entries younger than the window => recoverable whatever the passes; unknown pid / offset => not recovered; only plain events are logged.",
+    "Outside the claim: instants exactly at the window boundary (durations are multiples of 100ms against a 250ms window), binary packets through the real encoder (frames are opaque), the client/server glue "
+    "(callEvent offset capture, newServerSocket resend) unless C08_glue is listed in the evidence, several sessions on one log, time overflow. Native replay approximates cleaner passes with a 2ms period.",
+    "5 (C08)")
